@@ -409,6 +409,88 @@ fn cap_family(cx: &Ctx<'_>) -> u64 {
     n
 }
 
+/// Instant-responder family: the contacted peers answer inside the sender's socket send, so the reply is in A's
+/// inbound channel before the send call returns. Every request must still complete with that reply (a request
+/// registered only after its send would lose it), at every combination of the three request kinds.
+fn instant_family(cx: &Ctx<'_>) -> u64 {
+    let mut n = 0;
+    for mask in 1u32..8 {
+        let reqs: Vec<Req> = REQS.iter().enumerate().filter(|(i, _)| mask >> i & 1 == 1).map(|(_, r)| *r).collect();
+        let rt = paused_runtime();
+        rt.block_on(async {
+            verif_hooks::clear_sockets();
+            let world = World::new();
+            let a = make_node(&world, 0, &NodeSpec { tid: tid_with_prefix(1, 4, 0), app_id: Some(app_id_with_prefix(1, 4, 100)), k: 8 }).await;
+            let b_tid = tid_with_prefix(2, 4, 1);
+            let c_tid = tid_with_prefix(3, 4, 2);
+            let (bh, chx) = (hex::encode(b_tid), hex::encode(c_tid));
+            world.add_endpoint(b_tid, node_addr(1), true);
+            world.add_endpoint(c_tid, node_addr(2), true);
+            let _ = a.transport.connect_peer(&node_addr(1).to_string()).await;
+            let _ = a.transport.connect_peer(&node_addr(2).to_string()).await;
+            settle().await;
+            let responder: std::sync::Arc<dyn Fn(&Frame) -> Option<Vec<u8>> + Send + Sync> = std::sync::Arc::new(|fr: &Frame| {
+                if let Some(m) = &fr.info.dht {
+                    if matches!(m.message_type, DhtMessageType::Request) {
+                        let rsp = dht_response(m, "scripted", DhtNetworkResult::PongReceived { responder: "instant".into(), latency: Duration::ZERO });
+                        return Some(dht_frame("scripted", &rsp));
+                    }
+                }
+                if let Some((id, false)) = &fr.info.rr {
+                    #[derive(serde::Serialize)]
+                    struct Env {
+                        message_id: String,
+                        is_response: bool,
+                        payload: Vec<u8>,
+                    }
+                    let env = postcard::to_stdvec(&Env { message_id: id.clone(), is_response: true, payload: b"instant".to_vec() }).unwrap();
+                    return Some(verif_hooks::frame("/rr/test", env, "scripted", now_secs()));
+                }
+                None
+            });
+            world.with(|w| {
+                w.eps.get_mut(&bh).unwrap().instant_reply = Some(responder.clone());
+                w.eps.get_mut(&chx).unwrap().instant_reply = Some(responder.clone());
+            });
+            let mut handles: Vec<tokio::task::JoinHandle<Result<String, String>>> = Vec::new();
+            for r in &reqs {
+                let mgr = a.mgr.clone();
+                let tr = a.transport.clone();
+                let (bh2, ch2) = (bh.clone(), chx.clone());
+                let r = *r;
+                handles.push(tokio::spawn(async move {
+                    match r {
+                        Req::DhtPingB => mgr.send_request(&bh2, DhtNetworkOperation::Ping).await.map(|x| format!("{x:?}")).map_err(|e| e.to_string()),
+                        Req::DhtFindC => mgr.send_request(&ch2, DhtNetworkOperation::FindNode { key: [7u8; 32] }).await.map(|x| format!("{x:?}")).map_err(|e| e.to_string()),
+                        Req::RrB => tr.send_request(&bh2, "test", b"hello".to_vec(), RR_TIMEOUT).await.map(|x| String::from_utf8_lossy(&x.data).to_string()).map_err(|e| e.to_string()),
+                    }
+                }));
+            }
+            settle().await;
+            settle().await;
+            for (i, h) in handles.into_iter().enumerate() {
+                cx.distinct.eval();
+                let got = if h.is_finished() { h.await.ok() } else { h.abort(); None };
+                let ok = matches!(&got, Some(Ok(s)) if s.contains("instant"));
+                cx.distinct.outcome(&("instant", reqs[i], ok));
+                if !ok {
+                    let kind = if reqs[i] == Req::RrB { "rr" } else { "dht" };
+                    cx.run.violation_lazy("C04.match", feats(&[("kind", kind.into()), ("shape", "reply-that-overtakes-the-send-is-lost".into())]), || {
+                        (json!({"requests": reqs.iter().map(|r| format!("{r:?}")).collect::<Vec<_>>(), "request": format!("{:?}", reqs[i]), "outcome_without_any_time_passing": format!("{got:?}")}),
+                         format!("{:?}: the peer answered while the send call was still running and the request did not complete with that reply", reqs[i]))
+                    });
+                }
+            }
+            let (d, r) = (a.mgr.verif_active_operations_len(), a.transport.verif_active_requests_len().await);
+            if d + r > 0 {
+                cx.run.violation_lazy("C04.clean", feats(&[("table", "any".into()), ("shape", "entry-remains-after-instant-reply".into())]), || (json!({"dht": d, "rr": r}), format!("pending tables hold {d}+{r} entries after every request was answered")));
+            }
+        });
+        n += 1;
+    }
+    n
+}
+
 fn main() {
     let run = Run::new("C04", "model_checking");
     quiet_panics();
@@ -455,7 +537,7 @@ fn main() {
     let mut caps = 0;
     if parent.is_none() {
         if run.shard().0 == 0 {
-            caps = cap_family(&cx);
+            caps = cap_family(&cx) + instant_family(&cx);
         }
         for (wi, (reqs, held, first, max_len)) in work.iter().enumerate() {
             if !run.mine(wi) {
